@@ -50,17 +50,20 @@ CHECKS = {
     },
     "C10": {
         "tests": [{"name": "TestC10", "quick": 480000, "thorough": 4800000}],
-        "rule": "programs without spec-level --; an item sequence (sentence sampling, then item-level drop/duplicate/insert/swap so rejected lines are included; values non-empty, "
-                "not '-'- or '='-prefixed) is spelled twice independently: per occurrence a random documented spelling and a random folding of adjacent short-spelled occurrences; "
-                "items after a command-line -- are data and kept identical; oracle: identical acceptance and identical bound values, plus the reference-model verdict; "
-                "non-trivial = the two token vectors differ in >= 2 positions and one contains a folded token; distinct by (program, both argvs)",
+        "rule": "programs without spec-level --; an item sequence (sentence sampling, then item-level drop/duplicate/insert/swap so rejected lines are included; values non-empty; "
+                "a value starting with '-' is never spelled in the separate form, one starting with '=' never in the attached form, every other form is used) is spelled twice "
+                "independently (re-drawn up to four times while both spellings coincide): per occurrence a random documented spelling and a random folding of adjacent short-spelled occurrences; "
+                "items after a command-line -- are data and kept identical; oracle: identical acceptance and identical bound values (a disagreement of the "
+                "common verdict with the reference model is C01's business: counted as deferred-to-C01, not reported); non-trivial = the two token vectors differ in >= 2 positions and one contains a folded token; distinct by (program, both argvs)",
         "required_classes": {"different-spelling": 0.2, "verdict:accept": 0.2, "verdict:reject": 0.1},
         "assumptions": COMMON_ASSUMPTIONS,
     },
     "C11": {
         "tests": [{"name": "TestC11", "quick": 480000, "thorough": 4800000}],
         "rule": "generator of C10; one adjacent pair of occurrences of different options (before any --) is swapped at item level and both sequences are spelled independently; "
-                "oracle: identical acceptance and bound values, plus the reference-model verdict; non-trivial = a spelling in which an occurrence spans two tokens or sits in a fold; "
+                "up to eight sentences are sampled to find one holding such a pair (kept unmutated two times out of three), otherwise a pair is inserted; "
+                "oracle: identical acceptance and bound values (model disagreements are deferred to C01); non-trivial = a spelling in which an occurrence spans two tokens or sits in "
+                "a fold while the swapped pair holds a valued option or two short-named ones; "
                 "distinct by (program, both argvs)",
         "required_classes": {"swap:two-token-or-fold": 0.2, "verdict:accept": 0.05},
         "assumptions": COMMON_ASSUMPTIONS,
@@ -69,9 +72,11 @@ CHECKS = {
         "tests": [{"name": "TestC12", "quick": 80000, "thorough": 800000}],
         "rule": "C01 programs (spec-level -- allowed); argv from sentence sampling in which would-be env-backed options are omitted at random, optionally token-mutated; "
                 "the same argv is run with no option env-backed and with EVERY non-empty subset of the options env-backed (<= 4 options: all 2^n-1 subsets; above: 8 random subsets); "
-                "evaluations count (case, subset) runs; oracle: accepted(empty) => accepted(E); for specs without -- identical option value lists; reference-model verdict under E; "
+                "evaluations count (case, subset) runs; in a third of the cases a folded token may end in '=value' ('-ab=true', '-abo=v'): the reference semantics leaves the reading of "
+                "that shape open, so for those argvs only the metamorphic clauses are asserted; oracle: accepted(empty) => accepted(E); for specs without -- identical option value lists "
+                "(known finding F11: the value of o in '-<flags>o=v' is read as 'v' or '=v' depending on matcher order); reference-model verdict under E; "
                 "non-trivial = E non-empty, accepted under E, and an option of E occurs 0 times (fallback) or >= 2 times on the command line; distinct by (program, argv, E)",
-        "required_classes": {"env-enlarges": 0.01, "both-accept": 0.2},
+        "required_classes": {"env-enlarges": 0.01, "both-accept": 0.2, "token-shape:accepted-without-env": 0.002},
         "assumptions": COMMON_ASSUMPTIONS,
     },
     "C08": {
@@ -232,8 +237,53 @@ CHECKS = {
                 "(1b) with its environment variables unset or overwritten between its declarations and its Run the record is the same (only the environment at declaration time counts), (2) the batch rerun in a second random order gives the same per-application records; every rebuild of an application is handed the very same argv slice and the same default slice objects (the library must not write to either), (3) 2-4 rounds with one goroutine per application (each builds and runs its own app; GOMAXPROCS 2 or 16) give the "
                 "sequential records and the race detector stays silent (a report is turned into a VIOLATION with the batch as replay file). evaluations = batches; the class 'applications-run' counts single app executions. "
                 "non-trivial = batch of >= 8 applications in which >= 2 share a spec string and >= 1 uses environment-backed containers; distinct by full batch",
-        "required_classes": {"gomaxprocs:2": 0.1, "gomaxprocs:16": 0.1, "env-changed-between-declaration-and-run": 0.5},
+        "required_classes": {"gomaxprocs:2": 0.1, "gomaxprocs:16": 0.1, "env-changed-between-declaration-and-run": 2.0},
         "assumptions": COMMON_ASSUMPTIONS + ["schedule coverage is whatever the Go scheduler produces in the rounds run; interleavings are sampled, not enumerated",
                                              "package-level streams and exit function are swapped once per batch for a mutex-protected discard writer (through the verif hook) before the goroutines start"],
     },
 }
+
+# ---- amendments after the oracle audit (appended to the rule texts; see DESIGN.md Appendix D) ----------------------
+_AMEND = {
+    "C01": "A quarter of the cases declare the library's own []string containers (one shared default slice) instead of recorders; a third of "
+           "the recorders are a map type used by value (not hashable, not comparable) or a type answering IsBoolFlag()=false.",
+    "C02": "'Written by the command line' is observed directly (a Set call on the recorder after the declaration finished), not read from the "
+           "SetByUser flags (those are C15's); for the library's own containers it is inferred from a change of content, with the flags as tie-break.",
+    "C03": "Containers are recorder types including a map type used by value (unhashable) and a type with IsBoolFlag()=false; a spec error wrapped "
+           "in another error counts as the documented outcome.",
+    "C04": "Added: command names may be reused by commands that are not siblings (descendants, cousins); a positional value may be spelled like a "
+           "command elsewhere in the tree (not a direct sub command of its level); a quarter of the cases without unconvertible token declare the "
+           "library's own []string containers at every level, all with ONE shared default slice; a sub command on the path may own an option "
+           "spelled like the application's version flag; cases attributed to the greedy-group finding are still run and judged with that verdict. "
+           "The streams are captured separately; C04 reads their union (it does not name a stream).",
+    "C06": "Clause ownership: C06 reports only values (source precedence) of accepted runs; acceptance/strconv agreement is C13's, flags are C15's. "
+           "Environment names are separated by one or two blanks (documented: a space separated list); list items are padded with space/TAB only.",
+    "C07": "The output stream and the error stream are captured separately: error text and usage are looked for in the error stream only.",
+    "C13": "Clause ownership: C13 reports acceptance (exactly when strconv accepts every command-line token) and the value of every container for "
+           "which some token was converted; pure defaults are C06's, flags C15's. The empty token is delivered as a positional and as a separate-form value.",
+    "C14": "Added: in a quarter of the cases only the root declares parameters (trees of depth <= 4) and, three times out of four, a first help "
+           "request for an ancestor of the addressed command (or any command) is made on the SAME application object before the case's own "
+           "command line (class sequence:second-run-on-same-app). Help and version text is looked for in the union of both streams.",
+    "C15": "Clause ownership: C15 reports only the SetByUser flags of accepted runs (values are C06's/C13's); after a second command line on the "
+           "same application object every container it supplies a value for must be flagged.",
+    "C16": "In about a third of the cases the command under test is a sub command ('app sub ...'); the reference-model verdict of the explicit "
+           "spec is only counted (deferred to C01).",
+    "C17": "Layout is not asserted: names of an option may stand in either order, environment names with or without '$', the default of a "
+           "hidden value is looked for by its value (not by the '(default' wording), the COMMAND marker is not asserted when every sub command is hidden; "
+           "non-ASCII option names have two letters (long options whether letters are counted in bytes or characters).",
+    "C18": "Argument names whose status the statement leaves open are not generated (the word OPTIONS, non-ASCII upper-case or caseless letters, a leading underscore).",
+    "C19": "Blanks around environment items are not part of the asserted protocol; further Set calls after a failing one are allowed (counted); "
+           "a sentence rejected by the library is deferred to C01.",
+    "C20": "Shared default slices have spare capacity.",
+}
+for _k, _v in _AMEND.items():
+    CHECKS[_k]["rule"] += " AMENDED: " + _v
+
+_MORE_CLASSES = {
+    "C04": {"accept:depth>=1,builtin-containers-sharing-one-default": 0.01, "accept:value-spelled-like-a-command-elsewhere-in-the-tree": 0.005,
+            "accept:tree-reuses-a-command-name-on-another-branch-or-level": 0.05, "version:declared-not-requested-name-reused-by-subcommand": 0.003},
+    "C14": {"sequence:second-run-on-same-app": 0.02},
+    "C16": {"decls:command-under-test-is-a-sub-command": 0.1},
+}
+for _k, _v in _MORE_CLASSES.items():
+    CHECKS[_k].setdefault("required_classes", {}).update(_v)
